@@ -272,7 +272,7 @@ struct FamOut {
 fn run_family(seed: u64, f: u64, q_per_fam: usize) -> FamOut {
     let mut out = FamOut { evals: 0, nonempty: 0, shapes: BTreeSet::new(), counts: [0; simdoc::N_ACC], by_pers: [0; 8], errs: 0, first: None, n_viol: 0, sample: None, classes: BTreeMap::new() };
     let mut rng = Rng::new(derive(seed, "c15fam", f));
-    let p = DocParams { max_nodes: 8 + rng.below(23), max_depth: 1 + rng.below(4), names: gen::NAMES_PLAIN, max_width: 4 };
+    let p = DocParams { max_nodes: 8 + rng.below(23), max_depth: 1 + rng.below(4), names: gen::NAMES_C15, max_width: 4 };
     let mut base = gen::gen_doc(&mut rng, &p);
     if f % 5 == 0 {
         base = json!({"elems": [gen::scalar(&mut rng), "a", "ab", ["a", "b"], ["x", 1, 1.0], {"a": "xay", "b": 1}], "list": ["a", "b", 1, 1.5], "x": {"a": "ab", "b": [1, 2, 3]}, "a": base});
@@ -283,7 +283,7 @@ fn run_family(seed: u64, f: u64, q_per_fam: usize) -> FamOut {
     }
     let mut names = vec![];
     gen::names_of(&base, &mut names);
-    let g = QGen { names: &names, fancy: true, regex: true, ext: true };
+    let g = QGen { names: &names, fancy: true, regex: true, ext: true, safe_quotes: true };
     let mut queries: Vec<String> = vec![];
     for _ in 0..q_per_fam {
         let t = rng.weighted(&[3, 4, 3]);
